@@ -10,3 +10,50 @@ impl Tnr {
         }
     }
 }
+
+/// seeded positives/negatives for children-result-propagated
+pub mod tree_node {
+    use super::Tnr;
+    pub struct Transformed<T> {
+        pub data: T,
+        pub transformed: bool,
+        pub tnr: Tnr,
+    }
+    impl<T> Transformed<T> {
+        pub fn new(data: T, transformed: bool, tnr: Tnr) -> Self {
+            Transformed { data, transformed, tnr }
+        }
+        pub fn no(data: T) -> Self {
+            Transformed::new(data, false, Tnr::Continue)
+        }
+    }
+    pub struct Node {
+        pub kids: Vec<u32>,
+    }
+    pub fn map_kids(kids: &[u32]) -> Result<Transformed<Vec<u32>>, String> {
+        Ok(Transformed::no(kids.to_vec()))
+    }
+    /// negative: the unchanged branch keeps the children's recursion value
+    pub fn good_map_children(n: Node) -> Result<Transformed<Node>, String> {
+        if n.kids.is_empty() {
+            return Ok(Transformed::no(n));
+        }
+        let r = map_kids(&n.kids)?;
+        if r.transformed {
+            Ok(Transformed::new(Node { kids: r.data }, true, r.tnr))
+        } else {
+            Ok(Transformed::new(n, false, r.tnr))
+        }
+    }
+    /// seeded: the unchanged branch forgets the children's Stop/Jump
+    pub fn bad_map_children(n: Node) -> Result<Transformed<Node>, String> {
+        if n.kids.is_empty() {
+            return Ok(Transformed::no(n));
+        }
+        let r = map_kids(&n.kids)?;
+        if !r.transformed {
+            return Ok(Transformed::no(n));
+        }
+        Ok(Transformed::new(Node { kids: r.data }, true, r.tnr))
+    }
+}
